@@ -2,7 +2,6 @@ package tparsetime
 
 import (
 	"fmt"
-	"strconv"
 	"strings"
 	"time"
 )
@@ -21,24 +20,19 @@ func parseRFC3339Timestamp(timeStr string, timezoneCache map[string]*time.Locati
 	hour := atoi2(t[11:13])
 	min := atoi2(t[14:16])
 	sec := atoi2(t[17:19])
-	var frac float64
 	fracStr, tzStr := splitFractionAndTimezone(t[19:])
-	switch len(fracStr) - 1 {
-	case -1:
-		frac = 0.0
-	case 3:
-		frac = atof3(fracStr)
-	case 6:
-		frac = atof6(fracStr)
-	case 9:
-		frac = atof9(fracStr)
-	default:
-		f, err := strconv.ParseFloat(fracStr, 64)
-		if err != nil {
-			return time.Now(), fmt.Errorf("invalid fraction '%s': %w", fracStr, err)
-		}
-		frac = f
+	if len(fracStr) == 1 {
+		return time.Now(), fmt.Errorf("invalid fraction '%s'", fracStr)
 	}
+	// compute nanoseconds in integers: assembling the fraction in float64 is off by 1ns for many values
+	nsec := 0
+	for i := 1; i <= 9; i++ {
+		nsec *= 10
+		if i < len(fracStr) {
+			nsec += int(fracStr[i] - '0')
+		}
+	}
+
 	var location *time.Location
 	if len(tzStr) > 0 {
 		if loc, ok := timezoneCache[tzStr]; ok {
@@ -61,7 +55,7 @@ func parseRFC3339Timestamp(timeStr string, timezoneCache map[string]*time.Locati
 	} else {
 		location = time.Local
 	}
-	return time.Date(year, time.Month(month), date, hour, min, sec, int(frac*1000000000.0), location), nil
+	return time.Date(year, time.Month(month), date, hour, min, sec, nsec, location), nil
 }
 
 // splitFractionAndTimezone splits e.g. ".123+07:00" to .123 and +07:00
